@@ -128,6 +128,16 @@ func (e *C10) Run(c *core.Ctx, idx int) {
 				binary.LittleEndian.PutUint32(t[4:], off)
 			}
 			t = append(t, gen.RandOtherSeg(r, n+1).Payload...)
+			if r.Chance(1, 5) {
+				// a block exactly as long as one, two, three or four windows of the 4 KiB buffered
+				// reader (or a byte off): what the reader has buffered after the block equals what
+				// it had before
+				want := r.Pick(4096, 4096, 8192, 12288, 16384, 4095, 4097, 8191)
+				for len(t) < want {
+					t = append(t, gen.RandOtherSeg(r, want-len(t)+1).Payload...)
+				}
+				t = t[:want]
+			}
 			if len(t) > 65533-6 {
 				t = t[:65533-6]
 			}
